@@ -39,7 +39,34 @@ def run(ctx):
                          "valve / heat exchanger; non-trivial = converged with at least one flowing section and at least one "
                          "of: height difference, loss coefficient, several sections, reverse flow")
     proved = gen_and_prove(ctx, GEN, ["Props"], "C02")
+    float_shadow(ctx)
     monitor(ctx, wide=not proved)
+
+
+def float_shadow(ctx):
+    """translator validation: the extracted expression trees over PrimFloat, evaluated in Coq, must reproduce numpy bit for bit"""
+    from harness import kshadow
+    rounds, rows = (1, 18) if ctx.quick else (8, 120)
+    n_tot = n_bad = 0
+    for r in range(rounds):
+        try:
+            text, index = kshadow.shadow_cases(ctx.rng, rows)
+        except Exception as e:
+            ctx.broken("translator", "float shadow generation", repr(e))
+            return
+        trip, out = ctx.coq_counts(text, "shadow_%d" % r)
+        if not trip:
+            ctx.broken("translator", "float shadow does not evaluate", out[-600:])
+            return
+        n, m, first = trip[0]
+        n_tot += n
+        n_bad += m
+        if m:
+            k, o, row, kind = index[first]
+            ctx.broken("translator", "float shadow: Coq evaluation of the translated %s.%s differs from numpy (row kind %s; "
+                                     "%d of %d cases)" % (k, o, kind, m, n), "")
+    ctx.corr("float shadow: translated kernel over PrimFloat (vm_compute) == numpy, bit-exact "
+             "(hyd_incomp_np, hyd_comp_np, derived_np; all outputs)", n_tot, n_bad)
 
 
 def monitor(ctx, wide=False):
